@@ -399,6 +399,11 @@ def random_trace(rng, nsteps, focus=None):
             nt = len(init[tgt - 1]["cell"]["k"])
             scenario = [ev, {"op": "poke", "x": tgt, "name": "k", "i": rng.randint(1, nt), "v": 2 * rng.randrange(min(3, len(pal.values)))},
                         json.loads(json.dumps(ev))]
+    if scenario is None and focus and "full" in focus and len(init[1]["cell"]["k"]) >= 2 and rng.random() < 0.3:
+        # an operand that was grouped earlier (group_by marks the object itself): right-hand or left-hand side of a join
+        side = rng.choice([1, 2, 2])
+        scenario = [{"op": "group_by", "x": side, "cols": [rng.choice(["k", "a"] if side == 1 else ["k", "b"])]},
+                    {"op": rng.choice(["full", "full", "left", "inner", "semi", "anti"]), "x": 1, "o": 2}]
     s = Session(pal, init)
     tr = {"palette": pal.name, "init": init, "steps": []}
     for e in (scenario or []):
@@ -443,9 +448,15 @@ def random_trace(rng, nsteps, focus=None):
             if e2["op"] in ("filter", "filter_out"):
                 e2["a"]["mask"] = [rng.random() < 0.5 for _ in range(safe_nrow(s.frames[last_grouped - 1]))]
             if e2["op"] in ("full", "left", "inner", "semi", "anti"):
-                cand = [h + 1 for h in range(len(s.frames)) if plausible(s, dict(e2, o=h + 1))]
-                if cand:
-                    e2["o"] = rng.choice(cand)
+                if rng.random() < 0.5:
+                    # the frame that was just grouped as the right-hand operand
+                    cand = [h + 1 for h in range(len(s.frames)) if plausible(s, dict(e2, x=h + 1, o=last_grouped))]
+                    if cand:
+                        e2["x"], e2["o"] = rng.choice(cand), last_grouped
+                else:
+                    cand = [h + 1 for h in range(len(s.frames)) if plausible(s, dict(e2, o=h + 1))]
+                    if cand:
+                        e2["o"] = rng.choice(cand)
             if plausible(s, e2):
                 e = e2
         last_grouped = e["x"] if e["op"] == "group_by" and e.get("cols") else None
